@@ -256,6 +256,10 @@ def ref_step(r: RefGrid, op):
             s = np.full(D, r.s.max())
         else:
             s = np.broadcast_to(np.array(a["spacing"], float), (D,)).copy()
+        if np.allclose(s, r.s, rtol=1e-5, atol=1e-8):
+            # requested spacing equals the current one up to rounding: documented no-op (returns the grid itself,
+            # keeping its possibly fractional internal size)
+            return {"ref": r.copy(), "kind": "flag"}
         z = np.maximum(r.extent / s, a.get("min_size", 1))
         if not ok_size(z * (1 - 1e-5)) or np.any(z > 64):
             return None
